@@ -325,6 +325,16 @@ Theorem C02_sob_cases : forall (erfR : R -> R) z s ds b db,
 Proof. exact sob_eval_cases. Qed.
 Print Assumptions C02_sob_cases.
 
+(* PDFProduct.get_pd (product of two signal / background densities): the case-1 formula of the code is
+   the product rule; when one factor does not depend on the parameter it reduces to the code's cases 2 / 3 *)
+Theorem C02_pdf_product_rule : forall (erfR : R -> R) (p1 p2 : R -> R) (t0 d1 d2 : R),
+  is_derive p1 t0 d1 -> is_derive p2 t0 d2 ->
+  is_derive (fun t => p1 t * p2 t) t0 (lk_pdfprod_both (RNum erfR) (p1 t0) d2 (p2 t0) d1)
+  /\ (d2 = 0 -> lk_pdfprod_both (RNum erfR) (p1 t0) d2 (p2 t0) d1 = lk_pdfprod_1 (RNum erfR) (p2 t0) d1)
+  /\ (d1 = 0 -> lk_pdfprod_both (RNum erfR) (p1 t0) d2 (p2 t0) d1 = lk_pdfprod_2 (RNum erfR) (p1 t0) d2).
+Proof. exact pdf_product_rule. Qed.
+Print Assumptions C02_pdf_product_rule.
+
 (* ---------------------------------------------------------------- non-vacuity *)
 Close Scope R_scope.
 Open Scope Z_scope.
